@@ -1463,11 +1463,32 @@ CollectResults:
 			c.log.Printf("Call to %q canceled by caller (mode=%s): %s",
 				procedure, c.cancelMode, err)
 		}
-		if c.send(&wamp.Cancel{
+		cancelMsg := &wamp.Cancel{
 			Request: id,
 			Options: wamp.SetOption(nil, wamp.OptMode, c.cancelMode),
-		}) != nil {
-			break
+		}
+	sendCancel:
+		for {
+			select {
+			case c.sess.Send() <- cancelMsg:
+				break sendCancel
+			case msg, ok = <-wait:
+				// A reply arrived before the CANCEL could be sent. Take it so
+				// that run() is not kept waiting for this goroutine while
+				// this goroutine waits for the transport.
+				if !ok {
+					return nil, err
+				}
+				if result, isResult := msg.(*wamp.Result); isResult {
+					if progress, _ := result.Details[wamp.OptProgress].(bool); progress {
+						continue
+					}
+				}
+				// The call has ended. There is nothing left to cancel.
+				break CollectResults
+			case <-c.Done():
+				break CollectResults
+			}
 		}
 		// Wait for the ERROR from the dealer.
 		timer := time.NewTimer(c.responseTimeout)
